@@ -9,7 +9,7 @@
 // lost); a Write that would pass the error offset transfers the bytes up to it and
 // returns an error, as does every later Write (loss becomes detectable there; between
 // cut and error offset it is not, as with real TCP buffering); Close is idempotent in
-// effect; deadlines always succeed on an open connection.
+// effect; a write deadline is honoured in the model's virtual time (Advance).
 package znet
 
 import (
@@ -55,7 +55,16 @@ var (
 	ErrClosed  = errors.New("use of closed network connection")
 )
 
-func Reset() { Plan, Dials, Links = nil, 0, nil }
+// virtual time of the connection model (advanced by the harness): a write deadline set at
+// virtual time T for a duration D makes every Write after T+D fail with ErrTimeout
+var Clock time.Duration
+
+// Advance lets virtual time pass (an idle period between sends).
+func Advance(d time.Duration) { Clock += d }
+
+var ErrTimeout = errors.New("write: i/o timeout")
+
+func Reset() { Plan, Dials, Links, Clock = nil, 0, nil, 0 }
 
 type TCPConn struct {
 	Addr      string
@@ -66,6 +75,8 @@ type TCPConn struct {
 	Closed    bool
 	WriteErrs int // Write calls that returned an error
 	Writes    int
+	hasWDL    bool
+	wdl       time.Duration // virtual instant at which the write deadline expires
 }
 
 func DialTimeout(network, address string, timeout time.Duration) (Conn, error) {
@@ -105,6 +116,10 @@ func (c *TCPConn) Write(b []byte) (int, error) {
 		c.WriteErrs++
 		return 0, ErrClosed
 	}
+	if c.hasWDL && Clock > c.wdl {
+		c.WriteErrs++
+		return 0, ErrTimeout
+	}
 	if c.ErrAt >= 0 && c.Sent+len(b) > c.ErrAt {
 		n := c.ErrAt - c.Sent
 		if n < 0 {
@@ -139,6 +154,17 @@ func (c *TCPConn) dl() error {
 }
 func (c *TCPConn) SetDeadline(t time.Time) error      { return c.dl() }
 func (c *TCPConn) SetReadDeadline(t time.Time) error  { return c.dl() }
-func (c *TCPConn) SetWriteDeadline(t time.Time) error { return c.dl() }
+func (c *TCPConn) SetWriteDeadline(t time.Time) error {
+	if err := c.dl(); err != nil {
+		return err
+	}
+	if t.IsZero() {
+		c.hasWDL = false
+		return nil
+	}
+	// the deadline is an absolute wall-clock instant: its distance from "now" in virtual time
+	c.hasWDL, c.wdl = true, Clock+time.Until(t)
+	return nil
+}
 func (c *TCPConn) SetNoDelay(b bool) error            { return c.dl() }
 func (c *TCPConn) SetKeepAlive(b bool) error          { return c.dl() }
